@@ -25,6 +25,7 @@ def check(chk, thorough=False):
     chk.run('C12.g', 'R-FLOW', 'duplicate parameter / result ids are really detected: the id collections compared with their de-duplicated size are lists', lambda ob: c12g(tree, ob), floor=2)
     chk.run('C12.i', 'R-FLOW', 'the AAD binds target data and metadata under their scope bits (= C03.b)', lambda ob: __import__('sa.props.c03', fromlist=['c03b']).c03b(tree, ob), floor=7)
     chk.run('C12.j', 'R-NOPATH', 'no security block escapes verification by not being found: every block of a received bundle is entered into the type index (whatever its number), and a block that cannot be decoded fails the bundle instead of vanishing', lambda ob: c12j(tree, ob), floor=2)
+    chk.run('C12.k', 'R-FRESH', 'key stores, associations and contexts belong to their application object (created per instance, no shared default objects)', lambda ob: (__import__('sa.props.common', fromlist=['per_instance_state', 'fresh_defaults']).per_instance_state(tree, ob, 'bp/app/bpsec.py', ('Bpsec', 'CoseContext')), __import__('sa.props.common', fromlist=['per_instance_state', 'fresh_defaults']).fresh_defaults(tree, ob, ['bp/app/bpsec.py', 'bp/app/base.py', 'bp/crypto.py'])), floor=3)
     chk.run('C12.h', 'R-ORDER', 'a verification key comes only from the symmetric store, or from a validated chain whose node id MATCHED the security source (= C03.d)', lambda ob: _c03d(tree, ob), floor=3)
     chk.run('C12.f', 'R-TYPE', 'the recorded deletion reason is a reason code (integer) on every path', lambda ob: c12f(tree, ob), floor=2)
 
